@@ -48,6 +48,19 @@ def sites(tree):
             yield ('slice', idx, 1)
         elif isinstance(n, (ast.Break, ast.Continue)):
             yield ('brk', idx, 0)
+        if isinstance(n, ast.Call) and n.keywords:
+            for k, kw in enumerate(n.keywords):
+                if kw.arg is not None and not (isinstance(kw.value, ast.Constant) and kw.value.value is None):
+                    yield ('dropkw', idx, k)
+        if isinstance(n, ast.FunctionDef) and n.body and isinstance(n.body[-1], ast.Return) and isinstance(n.body[-1].value, ast.Name):
+            x = n.body[-1].value.id
+            lens = sorted({c.args[0].id for c in ast.walk(n) if isinstance(c, ast.Call) and isinstance(c.func, ast.Name) and c.func.id == 'len'
+                           and len(c.args) == 1 and isinstance(c.args[0], ast.Name)})
+            first = next((j for j, st in enumerate(n.body) if any(isinstance(t, ast.Name) and t.id == x and isinstance(t.ctx, ast.Store) for t in ast.walk(st))), None)
+            if first is not None:
+                for pos in sorted({first + 1, len(n.body) - 1}):
+                    for name in lens:
+                        yield ('guard', idx, f'{pos}:{name}')
 
 
 def mutate(tree, op, idx, arg):
@@ -70,6 +83,14 @@ def mutate(tree, op, idx, arg):
         n.args[0], n.args[1] = n.args[1], n.args[0]
     elif op == 'slice':
         n.upper = ast.BinOp(left=n.upper, op=ast.Add(), right=ast.Constant(value=1))
+    elif op == 'dropkw':
+        del n.keywords[arg]
+    elif op == 'guard':
+        pos, name = arg.split(':')
+        x = n.body[-1].value.id
+        g = ast.parse(f'if len({name}) == 1:\n    return {x}').body[0]
+        before = f'<{n.name} body[{pos}]>'
+        n.body.insert(int(pos), g)
     elif op == 'brk':
         # break <-> continue
         parent = None
@@ -81,7 +102,7 @@ def mutate(tree, op, idx, arg):
         if parent is None:
             return None, None, None
     ast.fix_missing_locations(t)
-    after = ast.unparse(list(ast.walk(t))[idx])[:80] if op not in ('brk',) else 'break<->continue'
+    after = 'break<->continue' if op == 'brk' else (f'if len({arg.split(":")[1]}) == 1: return ...' if op == 'guard' else ast.unparse(list(ast.walk(t))[idx])[:80])
     return t, before, after
 
 
@@ -130,7 +151,7 @@ def main():
             return args[args.index(name) + 1]
         return default
     files = opt('--files')
-    ops = set((opt('--ops') or 'cmp,arith,const,bool,del,not,swap,slice,brk').split(','))
+    ops = set((opt('--ops') or 'cmp,arith,const,bool,del,not,swap,slice,brk,dropkw,guard').split(','))
     funcs = set((opt('--funcs') or '').split(',')) - {''}
     jobs_n = int(opt('--jobs', '12'))
     out = opt('--out', '/tmp/mutants.json')
